@@ -79,6 +79,10 @@ FORCED = [
     [("INBOX", ["FETCH 3:5 (UID FLAGS BODY.PEEK[HEADER.FIELDS (X-CID)])", "NOOP"]), ("INBOX", ["UID EXPUNGE 2", "NOOP"])],
     [("INBOX", ["COPY 3:5 other", "NOOP"]), ("INBOX", ["EXPUNGE"]), ("INBOX", ["STORE 5 +FLAGS (\\Flagged)", "NOOP"])],
     [("#", ["nodeleted"]), ("INBOX", ["STORE 4:5 FLAGS (kwx)", "NOOP"]), ("INBOX", ["UID MOVE 1:2 other"]), ("INBOX", ["MOVE 3 other", "NOOP"])],
+    # message numbers on disk differ from sequence numbers (UIDs are 2..6 here): a narrow UID EXPUNGE beside readers
+    [("#", ["gap"]), ("INBOX", ["UID FETCH 2:6 (FLAGS BODY.PEEK[HEADER.FIELDS (X-CID)] BODY.PEEK[])"]), ("INBOX", ["UID EXPUNGE 3"])],
+    [("#", ["gap"]), ("INBOX", ["UID COPY 2:6 other"]), ("INBOX", ["UID EXPUNGE 5", "NOOP"]), ("INBOX", ["UID SEARCH TEXT body"])],
+    [("#", ["gap"]), ("INBOX", ["UID STORE 2:6 +FLAGS (kwx)", "NOOP"]), ("INBOX", ["UID EXPUNGE 3", "UID EXPUNGE 5"]), ("INBOX", ["UID FETCH 4:6 (FLAGS BODY.PEEK[HEADER.FIELDS (X-CID)])"])],
 ]
 
 
@@ -95,11 +99,15 @@ def gen_set(rnd):
     return out
 
 
-async def setup_state(rig, nodeleted=False):
+async def setup_state(rig, nodeleted=False, gap=False):
     cids = CidFactory("q")
     s = rig.session("Z")
     await s.cmd("CREATE other")
     table = {}
+    if gap:
+        # variant: a message that came first is gone again, so the MH message numbers (and the UIDs: 2..6) of what
+        # follows are not the sequence numbers (1..5)
+        await s.append("inbox", b"From: a@b\r\nSubject: gone again\r\nX-CID: gone0\r\n\r\nwas the first\r\n", flags=["\\Deleted"])
     for i, fl in enumerate([[f for f in x if f != "\\Deleted"] for x in INBOX_FLAGS] if nodeleted else INBOX_FLAGS):
         cid, m = cids.make()
         await s.append("inbox", m, flags=fl)
@@ -108,6 +116,10 @@ async def setup_state(rig, nodeleted=False):
         cid, m = cids.make()
         await s.append("other", m, flags=fl)
         table[("other", i + 1)] = cid
+    if gap:
+        await s.cmd("SELECT inbox")
+        await s.cmd("UID EXPUNGE 1")
+        await s.cmd("UNSELECT")
     await s.cmd("LOGOUT")
     return cids, table
 
@@ -273,7 +285,7 @@ async def one_run(loop, ctx, cmdset, mode, order=None):
     info = {"watchdog": 0, "closed": []}
     options = ctx.get("options") or []
     try:
-        cids, table = await setup_state(rig, nodeleted="nodeleted" in options)
+        cids, table = await setup_state(rig, nodeleted="nodeleted" in options, gap="gap" in options)
         rig.sessions_by_idx = {}
         rig.bye_sessions = set()
         for idx, (where, cmds) in enumerate(cmdset):
